@@ -327,6 +327,31 @@ fn random_intervals_inner(rng: &mut Rng, max_cp: u32) -> Vec<(u32, u32)> {
 }
 
 fn render_prop_file(sets: &[(&str, Vec<(u32, u32)>)], rng: &mut Rng) -> String {
+    let t = render_prop_file_sorted(sets, rng);
+    // UAX #44 does not promise any order of the lines: sometimes shuffle the lines of the whole file (values
+    // interleaved, as in files ordered by code point) or reverse them
+    match rng.below(5) {
+        0 => {
+            let mut lines: Vec<&str> = t.lines().filter(|l| !l.is_empty() && !l.starts_with('#')).collect();
+            rng.shuffle(&mut lines);
+            format!("# synthetic, shuffled\n{}\n", lines.join("\n"))
+        }
+        1 => {
+            let mut lines: Vec<&str> = t.lines().filter(|l| !l.is_empty() && !l.starts_with('#')).collect();
+            lines.reverse();
+            format!("# synthetic, descending\n{}\n", lines.join("\n"))
+        }
+        2 => {
+            // ordered by code point, values interleaved
+            let mut lines: Vec<&str> = t.lines().filter(|l| !l.is_empty() && !l.starts_with('#')).collect();
+            lines.sort_by_key(|l| u32::from_str_radix(l.split(|c: char| !c.is_ascii_hexdigit()).next().unwrap_or("0"), 16).unwrap_or(0));
+            format!("# synthetic, by code point\n{}\n", lines.join("\n"))
+        }
+        _ => t,
+    }
+}
+
+fn render_prop_file_sorted(sets: &[(&str, Vec<(u32, u32)>)], rng: &mut Rng) -> String {
     let mut t = String::from("# synthetic\n\n");
     for (name, ivs) in sets {
         for (lo, hi) in ivs {
